@@ -147,11 +147,11 @@ fn main() {
 			let mut cfgs = vec![];
 			for (key, val) in ind::json_map(&c.to_json().unwrap()) {
 				let texts: Vec<String> = if val.is_u64() {
-					["7", "33", "120", "251"].iter().map(|s| s.to_string()).collect()
+					["7", "33", "120", "251", "254"].iter().map(|s| s.to_string()).collect()
 				} else if let Some(o) = val.as_object() {
 					let kind = o.keys().next().unwrap().clone();
 					let kind = if kind == "lin_reg" { "linreg".to_string() } else { kind };
-					["7", "33", "120"].iter().map(|n| format!("{kind}-{n}")).collect()
+					["7", "33", "120", "254"].iter().map(|n| format!("{kind}-{n}")).collect()
 				} else {
 					vec![]
 				};
